@@ -28,7 +28,7 @@ ASSUMPTIONS = [
     'EAGAIN == EWOULDBLOCK on this platform',
 ]
 REQUIRED = ['endpoint_server', 'endpoint_client', 'endpoint_file', 'partial_send_requeued', 'accept_zero', 'eagain_injected', 'eintr_injected',
-            'enobufs_injected', 'fatal_injected', 'close_while_buffered', 'close_after_drain', 'two_connections_interleaved', 'two_clients_on_one_channel', 'file_open_for_reading_and_writing', 'thousands_of_payloads_queued_at_once', 'more_payloads_queued_than_the_configured_backlog', 'empty_payload',
+            'enobufs_injected', 'fatal_injected', 'close_while_buffered', 'close_after_drain', 'two_connections_interleaved', 'two_clients_on_one_channel', 'connection_on_descriptor_number_zero', 'file_open_for_reading_and_writing', 'thousands_of_payloads_queued_at_once', 'more_payloads_queued_than_the_configured_backlog', 'empty_payload',
             'write_after_close_request', 'server_wide_close', 'text_payload_multibyte', 'close_requested_by_peer_eof', 'client_reconnected_after_end', 'client_reconnected_after_unsent_backlog']
 REQUIRED_OBLIGATIONS = ['PREFIX', 'ALL_DELIVERED', 'CLOSE_WAITS_FOR_BUFFER', 'NO_SEND_AFTER_CLOSE', 'FATAL_SIGNALLED', 'CLOSE_HAPPENS']
 WORKER_TIMEOUT = {'quick': 300, 'thorough': 1800}
@@ -98,10 +98,16 @@ class Script:
 
 
 class ScriptedSocket(socket.socket):
-    def __init__(self, script, peer=('10.0.0.9', 5555)):
+    def __init__(self, script, peer=('10.0.0.9', 5555), number=None):
         super().__init__(socket.AF_INET, socket.SOCK_STREAM)
         self._vs = script
         self._vpeer = peer
+        self._vnumber = number      # the descriptor number the endpoint is shown (0: what a daemon with stdin closed, or inetd, hands out)
+
+    def fileno(self):
+        if self._vnumber is None:
+            return super().fileno()
+        return -1 if self._vs.closed else self._vnumber
 
     def send(self, data, *a):
         return self._vs.send(data)
@@ -153,7 +159,7 @@ class Listen(socket.socket):
         return ('127.0.0.1', 9999)
 
 
-def make_world(endpoint, scripts, backlog=None, fmode='w'):
+def make_world(endpoint, scripts, backlog=None, fmode='w', fdnum=None):
     """Returns dict(root, drive functions...)."""
     from circuits import BaseComponent, handler
     from circuits.core.pollers import BasePoller, _read as poll_read, _write as poll_write
@@ -193,7 +199,7 @@ def make_world(endpoint, scripts, backlog=None, fmode='w'):
         settle()
         socks = []
         for sc in scripts:
-            s = ScriptedSocket(sc, peer=('10.0.0.%d' % (len(socks) + 1), 5000))
+            s = ScriptedSocket(sc, peer=('10.0.0.%d' % (len(socks) + 1), 5000), number=fdnum if not socks else None)
             listen.pending.append(s)
             root.fire(poll_read(listen), 'srv')
             settle()
@@ -205,7 +211,7 @@ def make_world(endpoint, scripts, backlog=None, fmode='w'):
                  socks=socks, comp=srv, chan='srv', listen=listen)
     elif endpoint == 'client':
         from circuits.net.sockets import TCPClient
-        s = ScriptedSocket(scripts[0])
+        s = ScriptedSocket(scripts[0], number=fdnum)
         later = []       # scripts for the sockets of later connections of the same component
 
         class ScriptedTCPClient(TCPClient):
@@ -291,7 +297,7 @@ def run_case(case):
         payloads[0] = [b'%05d;' % i for i in range(case['flood'])]
     if nconn == 2 and not tee:
         payloads[1] = [bytes(reversed(p)) + b'#' for p in payloads[1]]
-    W = make_world(endpoint, scripts, backlog=case.get('backlog'), fmode=case.get('fmode', 'w'))
+    W = make_world(endpoint, scripts, backlog=case.get('backlog'), fmode=case.get('fmode', 'w'), fdnum=case.get('fdnum'))
     if endpoint == 'file' and '+' in case.get('fmode', 'w'):
         marks_fmode = 'file_open_for_reading_and_writing'
     else:
@@ -393,6 +399,8 @@ def run_case(case):
                     break
         if case.get('flood'):
             marks.add('thousands_of_payloads_queued_at_once' if case['flood'] > 5000 else 'more_payloads_queued_than_the_configured_backlog')
+        if case.get('fdnum') == 0 and endpoint != 'file':
+            marks.add('connection_on_descriptor_number_zero')
         if tee:
             marks.add('two_clients_on_one_channel')
         elif nconn == 2:
@@ -548,6 +556,11 @@ def corpus():
             for close_at in (None, 1, 2):
                 cs.append({'endpoint': endpoint, 'payloads': 'm', 'script': script, 'close_at': close_at, 'close_by': 'eof', 'pump_between': False})
     cs.append({'endpoint': 'server', 'two': True, 'payloads': 's', 'script': ['P', 'EAGAIN'], 'script2': ['Z', 'P'], 'close_at': 3, 'close_by': 'eof'})
+    # a connection whose socket has descriptor number 0
+    for endpoint in ('client', 'server'):
+        for script in ([], ['P', 'EAGAIN', 'P'], ['Z', 'P', 'EPIPE']):
+            for close_at in (None, 1):
+                cs.append({'endpoint': endpoint, 'fdnum': 0, 'payloads': 'm', 'script': script, 'close_at': close_at})
     # File opened for reading and writing / appending
     for fm in ('w+', 'a+', 'r+', 'a'):
         for script in ([], ['P', 'EAGAIN', 'P'], ['Z', 'P', 'EINTR']):
@@ -587,6 +600,8 @@ def gen_case(rng):
             'close_at': rng.choice([None, 0, 1, 2, len(PAYLOAD_SETS[pset]) - 1]), 'pump_between': rng.random() < 0.7}
     if endpoint == 'file' and rng.random() < 0.5:
         case['fmode'] = rng.choice(['w+', 'a+', 'r+', 'a'])
+    if endpoint != 'file' and rng.random() < 0.1:
+        case['fdnum'] = 0
     if case['endpoint'] == 'server' and rng.random() < 0.3:
         case['close_all'] = True
     elif case['endpoint'] != 'file' and rng.random() < 0.35:
